@@ -262,7 +262,49 @@ def chk_{name}({args}):
           pre=["len(xs) <= 2"], timeout=tmo, family=fam2, bounds="depth-2 glue: List[List], Dict[str, List[Optional]], Optional[Tuple[., Optional]]")
     m2.ob("rt_recursive", "sel: int, a: int, b: int, c: int", "return rt_rec(sel, a, b, c)", pre=["0 <= sel <= 12"], timeout=tmo,
           family="recursive models with several self references, typing.Self used inside another model (real loaders)", bounds="13 shapes nested up to 3 levels through first/second/third self-referencing field, list and dict of self; any int payloads; 6 modes")
-    mods = [m, m2, ktd_module(tier)]
+    mo = Module("c01_omit").pre('''
+import dataclasses, json
+from adaptix import name_mapping
+@dataclasses.dataclass
+class OF:
+    a: int
+    tags: Optional[List[int]] = dataclasses.field(default_factory=list)
+    meta: Optional[Dict[str, int]] = dataclasses.field(default_factory=dict)
+    note: Optional[str] = dataclasses.field(default_factory=str)
+    flag: Optional[bool] = False
+    n: Optional[int] = 0
+    t: Optional[Tuple[int, ...]] = ()
+    z: Optional[int] = None
+RECIPES = ([name_mapping(OF, omit_default=True)],
+           [name_mapping(OF, omit_default=True, map={"tags": ("m", "tags"), "meta": ("m", "meta"), "n": ("m", "k", "n")})],
+           [name_mapping(OF, omit_default="tags|note|n")])
+ORS = [six_retorts(rc) for rc in RECIPES]
+OLD = [{k: r.get_loader(OF) for k, r in rs.items()} for rs in ORS]
+ODP = [{k: r.get_dumper(OF) for k, r in rs.items()} for rs in ORS]
+def omit_rt(x, i1, i2, i3, i4, i5, i6, i7, js):
+    obj = OF(x,
+             tags=[None, [], [0], [x]][pick(i1, 4)], meta=[None, {}, {"k": 0}, {"": x}][pick(i2, 4)], note=[None, "", "x", "0"][pick(i3, 4)],
+             flag=[None, False, True][pick(i4, 3)], n=[None, 0, x][pick(i5, 3)], t=[None, (), (0,), (x, 0)][pick(i6, 4)], z=[None, 0, x][pick(i7, 3)])
+    for rc in range(len(RECIPES)):
+        for k in ORS[rc]:
+            if js and (rc != 1 or k[1] is DT_MODES[1]): continue          # json under the engine is slow: nested recipe, DISABLE and ALL
+            d = ODP[rc][k](obj)
+            if js: d = json.loads(json.dumps(realize(d)))
+            back = OLD[rc][k](d)
+            if back != obj: return False
+            if type(back.flag) is not type(obj.flag) or type(back.n) is not type(obj.n) or type(back.z) is not type(obj.z): return False
+    return True
+''')
+    for sl, pre in (("containers", "i4 == 1 and i5 == 1 and i7 == 0"), ("scalars", "i1 == 1 and i2 == 1 and i6 == 1"), ("mixed", "i1 == i2 and i5 == i7 and i3 == i6")):
+        mo.ob(f"omit_default_rt_{sl}", "x: int, i1: int, i2: int, i3: int, i4: int, i5: int, i6: int, i7: int", "return omit_rt(x, i1, i2, i3, i4, i5, i6, i7, False)",
+              pre=["0 <= i1 < 4 and 0 <= i2 < 4 and 0 <= i3 < 4 and 0 <= i4 < 3", "0 <= i5 < 3 and 0 <= i6 < 4 and 0 <= i7 < 3", pre], timeout=tmo,
+              family="omit_default round trip with real field types: factory defaults, falsy look-alikes (None / 0 / '' / [] / {} / () / False)",
+              bounds="7 defaulted Optional fields x 3-4 pooled values each (default, None, falsy and non-falsy values, a symbolic int); slice " + sl +
+                     "; 3 recipes (all fields, nested paths, omit_default predicate); 6 modes")
+    mo.ob("omit_default_rt_json", "i1: int, i2: int, i6: int", "return omit_rt(7, i1, i2, i1, 1, i6 % 3, i6, 0, True)",
+          pre=["0 <= i1 < 4 and 0 <= i2 < 4 and 0 <= i6 < 4"], timeout=tmo,
+          family="omit_default round trip through json", bounds="as above, payload 7, nested-path recipe, debug_trail DISABLE and ALL, through json.dumps/loads (C code: realised)")
+    mods = [m, m2, mo, ktd_module(tier)]
     names = ["plain", "rename", "nested", "nested2", "camel", "upper_kebab", "no_trim", "map_gt_style", "ellipsis", "ellipsis_style", "pairs_map",
              "stack_override", "stack_style", "forbid_nested", "rest_field", "rest_field_rename", "saturator", "omit_all", "omit_one", "omit_nested",
              "as_list", "as_list_map", "list_gaps", "list_in_dict", "dict_in_list"]
